@@ -133,6 +133,15 @@ def pts_fips(tier):
     for n in (224, 256, 384, 512):
         for ln in (0, 1, 71, 72, 73, 135, 136, 143, 144, 200):
             pts.append(('keccak-singleton', n, ln))
+        rate = (1600 - 2 * n) // 8
+        for k in (5, 9, 17) + ((33, 65) if tier == 'thorough' else ()):
+            for dn in (-1, 0, 1):
+                pts.append(('sha3', n, k * rate + dn))
+    for v in (128, 256):
+        rate = (1600 - 2 * v) // 8
+        for k in (5, 9, 17):
+            pts.append(('shake', v, k * rate - 1))
+            pts.append(('shake', v, k * rate))
     return sorted(set(pts))
 
 
